@@ -382,7 +382,7 @@ def run_case(case):
         # directories; sources(...) of several iterables, also after earlier resources) - with DIFFERENT schemas
         variant = rng.choice(['load_same_basename', 'load_same_file_twice', 'sources_iterables', 'sources_after_iterables',
                               'sources_mixed', 'load_package_same_name', 'load_tuple_same_name', 'concatenate_twice',
-                              'duplicate_twice'])
+                              'duplicate_twice', 'load_tuple_suffixed_name_first', 'load_json_python_types'])
         its = [[{'id': i, 'v%d' % j: 'x' * (j + 1)} for i in range(2 + j)] for j in range(4)]
 
         def csv_at(dirname, j):
@@ -409,6 +409,21 @@ def run_case(case):
             mk = lambda e: [copy.deepcopy(its[0]),                                                 # noqa: E731
                             d.load((copy.deepcopy(desc_), [iter([{'c': D('1.5')}, {'c': D('2.5')}])]), strip=False),
                             d.validate()]
+        elif variant == 'load_tuple_suffixed_name_first':
+            # the flow holds 'res_1'; the loaded package lists 'res_1_2' BEFORE its own 'res_1': the free name picked for the
+            # second one must not be the first one's
+            desc_ = {'resources': [{'name': 'res_1_2', 'path': 'a.csv', 'schema': {'fields': [{'name': 'c', 'type': 'number'}]}},
+                                   {'name': 'res_1', 'path': 'b.csv', 'schema': {'fields': [{'name': 'e', 'type': 'string'}]}}]}
+            mk = lambda e: [copy.deepcopy(its[0]),                                                 # noqa: E731
+                            d.load((copy.deepcopy(desc_), [iter([{'c': D('1.5')}]), iter([{'e': 'x'}, {'e': 'y'}])]),
+                                   strip=False), d.validate()]
+        elif variant == 'load_json_python_types':
+            # a JSON file hands over native values; INFER_PYTHON_TYPES declares what it finds (a boolean is not an integer)
+            import json as json_
+            with open('native.json', 'w') as f_:
+                json_.dump([{'id': i, 'active': bool(i % 2), 'name': 'n%d' % i, 'score': i + 0.5} for i in range(4)], f_)
+            mk = lambda e: [d.load('native.json', infer_strategy=d.load.INFER_PYTHON_TYPES,          # noqa: E731
+                                   cast_strategy=d.load.CAST_DO_NOTHING)]
         elif variant == 'load_same_basename':
             mk = lambda e: [d.load(csv_at('y2019', 0)), d.load(csv_at('y2020', 1)), d.validate()]   # noqa: E731
         elif variant == 'load_same_file_twice':
